@@ -18,11 +18,12 @@ RULE = ('random operation histories (append / appendleft / pop / popleft / clear
         'observable by a Queue subclass raising instead of blocking. Token accounting: tokens >= pending after every completed post, and '
         'tokens == pending whenever the history followed the consumer protocol. The same through HsmWithQueues.post_* and '
         'ActiveObject.post_* (object not started). distinct_nontrivial = distinct (capacity, target, op kind, fill level class) tuples '
-        'seen with an overflow or a clear. Every eighth case runs clear() from another thread while a started object consumes a backlog (detsched): clear() must not raise or deadlock and the object must keep dispatching')
+        'seen with an overflow or a clear. Every eighth case runs clear() from another thread while a consumer (a wait/popleft thread on a bare LockingDeque, or a started object) works through a backlog (detsched): clear() must return without raising, leave no event and no token, and a later post must reach the live consumer')
 CASES = {'quick': 4000, 'thorough': 300000}
 BUDGET = {'quick': 40, 'thorough': 300}
-REQUIRE = {'ops': 50000, 'overflow_fifo': 500, 'overflow_lifo': 500, 'clears': 500, 'clear_on_fresh': 50, 'protocol_histories': 300, 'concurrent_clear_runs': 300, 'clear_landed_mid_backlog': 50}
-ASSUME = ['sequential histories (one thread); concurrent use is C04/C05']
+REQUIRE = {'ops': 50000, 'overflow_fifo': 500, 'overflow_lifo': 500, 'clears': 500, 'clear_on_fresh': 50, 'protocol_histories': 300, 'concurrent_clear_runs': 300, 'clear_landed_mid_backlog': 50, 'aftermath_checked': 200}
+ASSUME = ['sequential histories (one thread) plus clear() racing one consumer; concurrent posting is C04/C05',
+          'an active object thread ended by a foreign clear() between its token wait and its popleft/task_done is counted, not judged: no property quantifies over that history']
 
 
 class WouldBlock(BaseException):
@@ -134,52 +135,94 @@ class Target:
 
 
 def concurrent_clear_case(ctx, n):
-  """clear() called from another thread while the started object's own thread is consuming a backlog (detsched):
-  clear() must succeed (no exception, no deadlock) and the object must keep working afterwards"""
+  """clear() called from another thread while a consumer is working through a backlog (detsched).  What C16 fixes for
+  clear() is decided here and nothing else: clear() returns (no exception, no deadlock), it leaves neither events nor tokens
+  behind, and a later post still gets its wake-up token (a live consumer receives it).  Two consumers:
+    'ld' - a harness consumer on a bare LockingDeque (wait, then popleft unless the deque was emptied meanwhile); it can not be
+           upset by the clear, so every run reaches the aftermath checks;
+    'ao' - a started ActiveObject.  Its own thread is NOT written for a foreign clear() between its token wait and its
+           popleft/task_done (IndexError / ValueError end run_event); no property quantifies over that history (C16 is about
+           the queue, C04/C05 about posts), so the end of that thread is counted (consumer_ended_by_racing_clear) and is not
+           a verdict; the aftermath is checked on the runs where the thread is still alive."""
   from vt import detsched as ds, aosim
   rng = ctx.rng('cclear', n)
   pol = aosim.policy_for(rng, est_len=600, fair_suffix=False)
   s = ds.Sched(seed=rng.randrange(1 << 30), max_steps=2000000, **pol)
   aosim.install(s)
+  variant = 'ld' if rng.random() < 0.5 else 'ao'
   try:
-    hist = aosim.History()
-    ao = aosim.make_ao(hist, name='c16')
-    st = aosim.make_state(hist, {}, rng.random() < 0.5)
     nback = rng.randint(2, 12)
+    kinds = [rng.choice(['fifo', 'fifo', 'lifo']) for _ in range(nback)]
     rec = {}
+    received = []
     try:
-      ao.start_at(st)
+      if variant == 'ao':
+        hist = aosim.History()
+        ao = aosim.make_ao(hist, name='c16')
+        st = aosim.make_state(hist, {}, rng.random() < 0.5)
+        ao.start_at(st)
+        ld = ao.locking_deque
+        post = lambda kind, u: (ao.post_fifo if kind == 'fifo' else ao.post_lifo)(Event(signal='EVT', payload=u))
+      else:
+        ld = LockingDeque()
+
+        def consumer():
+          while True:
+            ld.wait()
+            try:
+              x = ld.popleft()
+            except IndexError:
+              continue            # emptied by clear() after the token was taken
+            if x == 'STOP':
+              return
+            received.append(x)
+        th = ds.SThread(target=consumer)
+        th.start()
+        post = lambda kind, u: (ld.append if kind == 'fifo' else ld.appendleft)(u)
       for u in range(nback):
-        ao.post_fifo(Event(signal='EVT', payload=u))
+        post(kinds[u], u)
       rec['call'] = s.steps
       try:
-        ao.queue.clear()
+        ld.clear()
       except (ds.Abort, ds.Verdict):
         raise
       except BaseException as ex:
         rec['exc'] = '%s: %s' % (type(ex).__name__, ex)
       rec['ret'] = s.steps
+      rec['left'] = (len(ld), ds._q.Queue.qsize(ld.locking_queue))
       s.quiesce()
-      ao.post_fifo(Event(signal='EVT', payload=999))
+      dead = [(t.name, t.role, repr(t.exc)) for t in s.threads if t.exc is not None]
+      post('fifo', 999)
       s.quiesce()
     except ds.Verdict as v:
-      ctx.violation('C16/concurrent-clear-' + v.kind, 'clear() racing the consumer ended in %s: %r' % (v.kind, (v.info or {}).get('blocked')), {'backlog': nback, 'policy': pol})
+      ctx.violation('C16/concurrent-clear-' + v.kind, 'clear() racing the consumer ended in %s: %r' % (v.kind, (v.info or {}).get('blocked')), {'variant': variant, 'backlog': nback, 'policy': pol})
       return
     ctx.count('concurrent_clear_runs')
-    dispatched = [d['uid'] for d in hist.dispatch if d['sig'] == 'EVT']
-    ctx.distinct(('cclear', nback, len(dispatched), s.signature()[:20]))
-    wit = {'backlog': nback, 'policy': pol, 'clear': rec, 'dispatched': dispatched}
-    if 0 < len(dispatched) - 1 < nback:
+    ctx.count('concurrent_clear_runs_' + variant)
+    if variant == 'ao':
+      received = [d['uid'] for d in hist.dispatch if d['sig'] == 'EVT']
+    ctx.distinct(('cclear', variant, nback, len(received), s.signature()[:20]))
+    wit = {'variant': variant, 'backlog': nback, 'kinds': kinds, 'policy': pol, 'clear': rec, 'received': received, 'ended_threads': dead}
+    if 0 < len([u for u in received if u != 999]) < nback:
       ctx.count('clear_landed_mid_backlog')
     if 'exc' in rec:
-      ctx.violation('C16/clear-raises/racing-consumer', 'clear() called while the object\'s thread was consuming a backlog of %d events raised %s' % (nback, rec['exc']), wit)
+      ctx.violation('C16/clear-raises/racing-consumer', 'clear() called while a consumer was working through a backlog of %d events raised %s' % (nback, rec['exc']), wit)
       return
-    exc = [(t.name, t.role, repr(t.exc)) for t in s.threads if t.exc is not None]
-    if exc:
-      ctx.violation('C16/concurrent-clear-kills-thread', 'a thread died: %r' % exc, wit)
+    if rec['left'] != (0, 0):
+      ctx.violation('C16/clear-leaves-state/racing-consumer', 'when clear() returned (nobody posting) the queue held %d events and %d tokens' % rec['left'], wit)
       return
-    if 999 not in dispatched:
-      ctx.violation('C16/queue-unusable-after-concurrent-clear', 'an event posted after clear() was never dispatched (queue %d, tokens %d)' % (len(ao.queue), ds._q.Queue.qsize(ao.locking_deque.locking_queue)), wit)
+    if len(set(received)) != len(received) or not set(received) <= set(range(nback)) | {999}:
+      ctx.violation('C16/consumer-received-other-than-posted', 'the consumer received %r, posted 0..%d and 999' % (received, nback - 1), wit)
+      return
+    if dead:
+      if variant == 'ld':
+        ctx.violation('C16/harness-consumer-raised', 'the wait/popleft consumer raised: %r' % dead, wit)
+      else:
+        ctx.count('consumer_ended_by_racing_clear')     # outside every property, see the docstring
+      return
+    ctx.count('aftermath_checked')
+    if 999 not in received:
+      ctx.violation('C16/queue-unusable-after-concurrent-clear', 'an event posted after clear() never reached the live consumer (queue %d, tokens %d)' % (len(ld), ds._q.Queue.qsize(ld.locking_queue)), wit)
   finally:
     ds.uninstall()
 
